@@ -21,7 +21,9 @@ ASSUMPTIONS = [
     'bounded: exhaustive only within the stated universe; random beyond',
 ]
 
-WEIRD = ['input1', 'OUTPUTx', 'a@b', '0', 'vdd1', 'x y', 'Input_a', '_', 'n#', 'é']
+WEIRD = ['input1', 'OUTPUTx', 'a@b', '0', 'vdd1', 'x y', 'Input_a', '_', 'n#', 'é',
+         # names that look like the ones the library generates itself, numbers whose text order differs from their numeric order
+         'not_L0', 'new_L1', 'tmp_0', 'gate_0', 'big_or', 'pairwise_xor@xor_0', 'L0_', '10', '2', 'new_gate_NOT_for_L0', 'if', 'L1@L0']
 
 
 def design(tier, seed):
